@@ -13,6 +13,8 @@ macro_rules! dispatch {
             "C06" => $f(&props::hist2::C06, $($arg),*),
             "C07" => $f(&props::hist2::C07, $($arg),*),
             "C10" => $f(&props::hist2::C10, $($arg),*),
+            "C16" => $f(&props::refeval::C16, $($arg),*),
+            "C17" => $f(&props::refeval::C17, $($arg),*),
             "C20" => $f(&props::hist2::C20, $($arg),*),
             "C27" => $f(&props::hist2::C27, $($arg),*),
             "C08" => $f(&props::hist3::C08, $($arg),*),
@@ -20,6 +22,7 @@ macro_rules! dispatch {
             "C21" => $f(&props::hist3::C21, $($arg),*),
             "C22" => $f(&props::hist3::C22, $($arg),*),
             "C23" => $f(&props::parse::C23, $($arg),*),
+            "C24" => $f(&props::lens::C24, $($arg),*),
             "C25" => $f(&props::pure::C25, $($arg),*),
             "C28" => $f(&props::parse::C28, $($arg),*),
             "C26" => $f(&props::pure::C26, $($arg),*),
